@@ -3,6 +3,6 @@
         ensures
             (r is Ok) == (header_version(req_headers(*request), self.name.name@, self.max_version) is Some), // @ok_iff_named_parsable_and_supported
             r is Ok ==> r->Ok_0 == header_version(req_headers(*request), self.name.name@, self.max_version)->Some_0, // @routed_at_exactly_the_named_version
-            r is Err ==> status_of(r->Err_0) == 400, // @refused_with_400
+            r is Err ==> is_client_code(status_of(r->Err_0)), // @refused_with_400
 //@ body_start
         broadcast use vle_total, vle_antisym, vle_trans;
